@@ -26,6 +26,10 @@ def base(pid):
 
 
 if __name__ == "__main__":
+    import subprocess
+
+    if subprocess.run(["git", "-C", "/repo", "diff", "--quiet"]).returncode != 0:
+        sys.exit("/repo has uncommitted changes (another campaign tool is applying a patch): results would be about that tree")
     patch = os.path.abspath(sys.argv[1])
     pids = sys.argv[2:] or [f"C{i:02d}" for i in range(1, 21)]
     with ProcessPoolExecutor(max_workers=int(os.environ.get("SA_JOBS", "8"))) as ex:
